@@ -4,6 +4,7 @@ sys.path.insert(0, os.path.dirname(os.path.dirname(os.path.abspath(__file__))))
 from go2v_hook import go2v_hook2
 CONF = {
     'pre': [go2v_hook2],
+    'coq_sample': 12,   # cases re-evaluated inside Coq by vm_compute (digest of the session result, NgDigest.v)
     'interesting': ['mut-blocklen', 'mut-optlen', 'mut-tsresol', 'mut-caplen', 'mut-ifid', 'mut-optcode', 'mut-reclen',
                     'mut-rectype', 'mut-origlen', 'mut-snaplen', 'mut-secretslen', 'mut-blocktype', 'mut-bom', 'mut-version',
                     'mut-optval', 'mut-tsoff', 'mut-ts', 'mut-linktype',
